@@ -265,16 +265,16 @@ def newline (b : Buf) : St × Buf :=
   if b.n - b.pos = 0 then (.eol, b)
   else
     -- if (nc == 1 && mem[pos] == '\r') { refill(bf, 1); nc = n - pos; }
-    let (st0, b0) : St × Buf :=
-      if b.n - b.pos = 1 ∧ b.mem[b.pos]? = some CR then refill b 1 else (.ok, b)
-    if st0 ≠ .eof ∧ st0 ≠ .ok then (st0, b0) else
-    let nc := b0.n - b0.pos
-    let (isnl, b1) : Bool × Buf :=
-      if nc ≥ 1 ∧ b0.mem[b0.pos]? = some LF then (true, { b0 with pos := b0.pos + 1 })
-      else if nc ≥ 2 ∧ b0.mem[b0.pos]? = some CR ∧ b0.mem[b0.pos + 1]? = some LF then (true, { b0 with pos := b0.pos + 2 })
-      else (false, b0)
-    let (st, b2) := refill b1 0
-    if st ≠ .eof ∧ st ≠ .ok then (st, b2) else (if isnl then .eol else .ok, b2)
+    let r0 : St × Buf := if b.n - b.pos = 1 ∧ b.mem[b.pos]? = some CR then refill b 1 else (.ok, b)
+    if r0.1 ≠ .eof ∧ r0.1 ≠ .ok then r0 else
+    let b0 := r0.2
+    -- length of the newline at the cursor (0 = none): is_newline = (nl != 0); pos += nl
+    let nl : Nat :=
+      if b0.n - b0.pos ≥ 1 ∧ b0.mem[b0.pos]? = some LF then 1
+      else if b0.n - b0.pos ≥ 2 ∧ b0.mem[b0.pos]? = some CR ∧ b0.mem[b0.pos + 1]? = some LF then 2
+      else 0
+    let r2 := refill { b0 with pos := b0.pos + nl } 0
+    if r2.1 ≠ .eof ∧ r2.1 ≠ .ok then r2 else (if nl ≠ 0 then .eol else .ok, r2.2)
 
 /-- the `do … while` loop of `buffer_counttok`: `(status, b, nc)` -/
 def counttokLoop (sep : Bytes) : Nat → Buf → Nat → St × Buf × Nat
